@@ -19,6 +19,7 @@ Decided structurally:
   C05.var       VarClear / VarCopy are total over VAR_TYPE; VarCopy clears the destination and deep-copies strings
   C05.gate      every engine write of the selected-output print switch pr.punch is followed by the matching
                 phrq_io->Set_punch_on(..) (string/file gate), so table, string and file are switched together
+  C05.open      do_run opens the lazily opened files before tidy_model and independently of pr.punch
   C05.once      tidy_punch (which writes the headings of every flagged block) is never called from inside a loop over the blocks
   C05.lines     GetSelectedOutputStringLine is range-guarded on the same vector it subscripts (shared with C09.lines)
 Not decided: (c) the text cell equals the table value rendered in the block's format (format strings vs values); row-count
@@ -52,6 +53,7 @@ def run(P, R, tier):
     var_rules(P, R)
     lines_rule(P, R, "C05.lines", only=("GetSelectedOutputStringLine",))
     once_rule(P, R)
+    open_rule(P, R)
     # the engine-side selected-output switch pr.punch and the sink gate punch_on move together (shared with C07.mirror):
     # a write of pr.punch that is not followed by Set_punch_on lets the table fill while string and file stay empty (or v.v.)
     from . import c07 as C07
@@ -94,6 +96,47 @@ def once_rule(P, R):
             for c in T.children(node):
                 rec(c, in_loop)
         rec(f["body"], False)
+
+
+def open_rule(P, R):
+    """The selected-output files are opened lazily by do_run.  tidy_punch writes a block's heading line whenever its new_def
+    flag is set - also in a simulation with PRINT -selected_output false (it forces the switch on for the headings).  If the
+    opening of the files depended on that print switch, the heading would reach the string while the file is still closed."""
+    R.rule("C05.open", "do_run opens the selected-output files independently of the engine print switch pr.punch, before tidy_model", minimum=2)
+    f = P.one("IPhreeqc::do_run")
+    opens = []
+
+    def rec(n, conds):
+        if not T.is_node(n):
+            return
+        if n[0] == "If":
+            rec(n[3], conds + [n[2]])
+            rec(n[4], conds + [n[2]])
+            for c in T.calls(n[2]):
+                if T.callee_name(c) == "punch_open":
+                    opens.append((c, list(conds)))
+            return
+        if n[0] == "Call" and T.callee_name(n) == "punch_open":
+            opens.append((n, list(conds)))
+        for c in T.children(n):
+            rec(c, conds)
+    rec(f["body"], [])
+    if not opens:
+        R.anchor_missing("C05.open", "do_run no longer calls punch_open")
+        return
+    for c, conds in opens:
+        dep = [cd for cd in conds if any(y[0] == "Member" and y[2].split("::")[-1] == "punch" and T.is_node(y[3]) and
+                                         any(z[0] == "Member" and z[2] == "Phreeqc::pr" for z in T.walk(y[3])) for y in T.walk(cd))]
+        if dep:
+            R.violation("C05.open", "do_run:punch_open", "the selected-output file is opened only when pr.punch is on (condition at line %d): a heading line written by "
+                        "tidy_punch while PRINT -selected_output false is in force reaches the string but not the file" % dep[0][1], file=f["file"], line=c[1], function=f["q"])
+        else:
+            R.ok("C05.open", "do_run:punch_open", "not control-dependent on pr.punch")
+    tm = [c[1] for c in T.calls(f["body"]) if T.callee_q(c) == "Phreeqc::tidy_model"]
+    if tm and all(c[1] < min(tm) for c, _ in opens):
+        R.ok("C05.open", "do_run:order", "files opened before tidy_model (which may write headings)")
+    else:
+        R.violation("C05.open", "do_run:order", "punch_open is not called before tidy_model in do_run", file=f["file"], line=opens[0][0][1], function=f["q"])
 
 
 # ------------------------------------------------------------------------------------------ siblings
